@@ -706,11 +706,23 @@ impl Resolution<'_> {
                 source,
             } => Error::InstantiationArgMergeFailure {
                 name: import,
-                span: self.instantiation_spans[&second],
-                instantiation: self.instantiation_spans[&first],
+                span: self.node_span(second),
+                instantiation: self.node_span(first),
                 source,
             },
         })
+    }
+
+    /// Gets the span of the statement that created the given import or instantiation node.
+    ///
+    /// The nodes of an import merge conflict are instantiations (implicit imports) or
+    /// explicit imports.
+    fn node_span(&self, node: NodeId) -> SourceSpan {
+        self.instantiation_spans
+            .get(&node)
+            .or_else(|| self.import_spans.get(&node))
+            .copied()
+            .expect("node should be an import or an instantiation")
     }
 
     /// Consumes the resolution and returns the underlying composition graph.
